@@ -305,12 +305,18 @@ def check_case(case, ev):
             if call.outcome.status == "deadlock":
                 raise Violation("c13.deadlock", f"[{tag}] {call.outcome.error}")
             got = _form(call)
+            cut_short = bool(use_async_style and suspend and case["runner"] != "sync" and want[0] == "raised")
+            if cut_short and got[:3] == want[:3]:
+                # a run that is cut short by a node's exception: how far the concurrent siblings / items got by then depends on
+                # the interleaving, which an observer that really suspends shifts (a schedule effect, not an effect of its failure)
+                got = want
+                labels.add("cut_short_run_under_suspending_observer(outcome_only)")
             if got != want:
                 what = "status" if got[0] != want[0] else ("error" if got[2] != want[2] else ("values" if got[1] != want[1] else "invocations"))
                 raise Violation("c13.run_altered", f"[{tag}] outcome {str(got[:3])[:600]} differs from the processor-free run {str(want[:3])[:600]}", what=what, at="shutdown" if k == "shutdown" else ("all" if k == "all" else "event"))
             rec = holder["rec"]
             got_stream = normalise(rec.events) if exact else tree_form(rec.events)
-            if got_stream != base_norm:
+            if got_stream != base_norm and not cut_short:
                 missing = len(base_norm) - len(got_stream)
                 raise Violation("c13.healthy_stream_differs", f"[{tag}] the healthy recorder received {len(got_stream)} events, baseline {len(base_norm)}; first difference: "
                                 + str(next(((a, b) for a, b in zip(got_stream, base_norm) if a != b), "length only"))[:500],
